@@ -4,7 +4,7 @@
      kt_obs_member / kt_obs_variant / kt_obs / kt_file_decls             the language-independent observation
    The Kotlin generator keeps no state while printing: the fields of `struct Kotlin` are configuration
    only, nothing is buffered and nothing is written out of order, so the monad is [outcome] itself
-   (Err = the io::Error that wraps a RustTypeFormatError, Panic = todo!()). *)
+   (Err = the io::Error that wraps a RustTypeFormatError, or the one write_const returns). *)
 From Coq Require Import String.
 From TS Require Import Model.Str Model.Outcome Model.Unicode Model.Types Model.Parse Model.Rename
                        Model.TopsortAlgo Model.Topsort Model.Lang.Common Model.Lang.Decl Model.Lang.TypeScript.
